@@ -3,6 +3,8 @@
    One action per critical section (everything below runs under changeCache.lock):
      Arrive(e)        processEntry            (document / principal / unused-single; five branches)
      ArriveRange      processUnusedRange      (unused range a..b, a < b)
+     Doc(d)           DocChanged for one document feed event: unused_sequences, qualifying recent_sequences and the
+                      revision itself, each through processEntry (several critical sections; sequential composition)
      Tick             InsertPendingEntries -> _addPendingLogs
      Abandon          CleanSkippedSequenceQueue with every entry older than CacheSkippedSeqMaxWait
    _addPendingLogs / _popPendingLog / _addToCache are the operators DrainSet / PopSet / AddToCache.
@@ -30,6 +32,7 @@ CONSTANTS W,            \* window: sequences 1..W
           Olds,         \* subset of BOOLEAN: may an arriving entry already be older than MaxWait
           Kinds,        \* subset of {"doc","princ","unused"}
           Ranges,       \* set of <<a,b>>, a < b : unused ranges the feed may declare
+          DocEvs,       \* set of [seq, unused, recent] : document feed events with unused_sequences / recent_sequences (DocChanged level)
           MaxDup,       \* a sequence arrives at most this many times as a single event
           MaxRangeArr,  \* total number of range arrivals
           Policy,       \* "any" | "exact"
@@ -41,10 +44,10 @@ NoOwner == [k |-> "none", a |-> 0, b |-> 0]
 
 VARIABLES next, pending, received, skipped, hcs, stable, nsk, out, star, lls,   \* implementation (see Trace_ChangeCache for the projection)
           maxNum,                                                            \* configuration of this behaviour
-          owner, legal, docArr, cnt, rcnt, delivered, hiNL, ordOK, phantom, abandoned, lateSet, lastKind,  \* ghosts
+          owner, legal, docArr, superseded, cnt, rcnt, delivered, hiNL, ordOK, phantom, abandoned, lateSet, lateDoc, lastKind,  \* ghosts
           hist
 impl  == <<next, pending, received, skipped, hcs, stable, nsk, out, star, lls>>
-ghost == <<maxNum, owner, legal, docArr, cnt, rcnt, delivered, hiNL, ordOK, phantom, abandoned, lateSet, lastKind>>
+ghost == <<maxNum, owner, legal, docArr, superseded, cnt, rcnt, delivered, hiNL, ordOK, phantom, abandoned, lateSet, lateDoc, lastKind>>
 vars  == <<impl, ghost, hist>>
 view  == <<impl, ghost>>
 
@@ -114,17 +117,35 @@ SetImpl(r) == /\ next' = r.next /\ pending' = r.pend /\ received' = r.recv /\ sk
               /\ hcs' = r.hcs /\ out' = r.out /\ star' = r.star /\ lls' = r.lls
               /\ stable' = StableOf(r.skip, r.next) /\ nsk' = Cardinality(r.skip)
 
-(* processEntry *)
-ArriveSet(e) ==
-  LET st0 == Cur IN
-  IF e.seq < next /\ e.seq \notin skipped THEN {st0}             \* duplicate of a processed sequence
-  ELSE IF e.seq \in received THEN {st0}                          \* duplicate of a pending sequence
+(* processEntry from state st0; sk = the caller already marked the entry Skipped (DocChanged, recent_sequences) *)
+ArriveFrom(st0, e, sk) ==
+  IF e.seq < st0.next /\ ~sk /\ e.seq \notin st0.skip THEN {st0}  \* duplicate of a processed sequence
+  ELSE IF e.seq \in st0.recv THEN {st0}                          \* duplicate of a pending sequence
   ELSE LET st1 == [st0 EXCEPT !.recv = @ \cup {e.seq}] IN
-       IF e.seq = next THEN DrainSet(AddToCache(st1, e, FALSE))
-       ELSE IF e.seq > next THEN
+       IF e.seq = st0.next THEN DrainSet(AddToCache(st1, e, sk))
+       ELSE IF e.seq > st0.next THEN
             LET st2 == [st1 EXCEPT !.pend = BagAdd(@, e)] IN
             IF Policy = "any" \/ BagSize(st2.pend) > maxNum THEN DrainSet(st2) ELSE {st2}
        ELSE {[AddToCache(st1, e, TRUE) EXCEPT !.skip = @ \ {e.seq}]}   \* late arrival: cache, then RemoveSkipped
+ArriveSet(e) == ArriveFrom(Cur, e, FALSE)
+
+(* DocChanged: d = [seq, unused, recent, old] *)
+Sub(q, k, o) == [seq |-> q, end |-> 0, kind |-> k, old |-> o]
+CurrentSeq(d) == IF Len(d.unused) > 0 THEN d.unused[1] ELSE d.seq
+RECURSIVE UnusedFold(_, _, _)
+UnusedFold(S, d, i) ==
+  IF i > Len(d.unused) THEN S
+  ELSE UnusedFold(UNION {ArriveFrom(st, Sub(d.unused[i], "unused", d.old), FALSE) : st \in S}, d, i + 1)
+RECURSIVE RecentFold(_, _, _, _)
+RecentFold(S, d, snap, i) ==          \* snap = nextSequence read once before the loop; WasSkipped is read per element
+  IF i > Len(d.recent) THEN S
+  ELSE LET r == d.recent[i] IN
+       RecentFold(UNION { LET isSk == r < CurrentSeq(d) /\ r < snap /\ r \in st.skip IN
+                          IF (r >= snap /\ r < CurrentSeq(d)) \/ isSk THEN ArriveFrom(st, Sub(r, "unused", d.old), isSk) ELSE {st}
+                          : st \in S }, d, snap, i + 1)
+DocSet(d) ==
+  UNION { UNION { ArriveFrom(st2, Sub(d.seq, "doc", d.old), FALSE) : st2 \in RecentFold({st1}, d, st1.next, 1) }
+          : st1 \in UnusedFold({Cur}, d, 1) }
 
 (* processUnusedRange *)
 RangeSet(e) ==
@@ -135,6 +156,7 @@ RangeSet(e) ==
 
 ImplArrive(e)      == \E r \in ArriveSet(e) : SetImpl(r)
 ImplArriveRange(e) == \E r \in RangeSet(e) : SetImpl(r)
+ImplDoc(d)         == \E r \in DocSet(d) : SetImpl(r)
 ImplTick           == \E r \in DrainSet(Cur) : SetImpl(r)
 ImplAbandon        == SetImpl([Cur EXCEPT !.skip = {}])
 
@@ -157,46 +179,65 @@ GhostOut(da) ==
   LET r == FoldOut(out', 1, da, [del |-> delivered, hi |-> hiNL, ok |-> ordOK, ph |-> phantom]) IN
   delivered' = r.del /\ hiNL' = r.hi /\ ordOK' = r.ok /\ phantom' = r.ph
 
-GApply(g, e) ==                   \* what the feed has declared so far (pure; also folded over concurrent batches)
+Compat(o, id) == o = NoOwner \/ o = id \/ (o.a = id.a /\ o.b = id.b /\ {o.k, id.k} \subseteq {"doc", "recent"})
+GApply(g, e) ==                   \* what the feed has declared so far (pure; also folded over batches)
   LET id == Ident(e) IN
-  [legal  |-> g.legal /\ \A s \in Cover(e) : g.owner[s] \in {NoOwner, id},
+  [legal  |-> g.legal /\ \A s \in Cover(e) : Compat(g.owner[s], id),
    owner  |-> [s \in Win |-> IF s \in Cover(e) /\ g.owner[s] = NoOwner THEN id ELSE g.owner[s]],
    docArr |-> IF e.kind = "doc" THEN g.docArr \cup {e.seq} ELSE g.docArr]
 GCur == [legal |-> legal, owner |-> owner, docArr |-> docArr]
 GhostEvent(e, lateS) ==
   LET g == GApply(GCur, e) IN
   /\ legal' = g.legal /\ owner' = g.owner /\ docArr' = g.docArr
-  /\ lateSet' = lateS /\ lastKind' = e.kind
+  /\ lateSet' = lateS /\ lateDoc' = (IF e.kind = "doc" THEN lateS ELSE {}) /\ lastKind' = e.kind
   /\ GhostOut(g.docArr)
-  /\ UNCHANGED <<maxNum, abandoned>>
+  /\ UNCHANGED <<maxNum, abandoned, superseded>>
 GhostArrive(e) == /\ GhostEvent(e, IF e.seq \in skipped THEN {e.seq} ELSE {})
                   /\ cnt' = [s \in Win |-> IF s = e.seq THEN cnt[s] + 1 ELSE cnt[s]] /\ rcnt' = rcnt
 GhostArriveRange(e) == /\ GhostEvent(e, IF e.end < next THEN (e.seq..e.end) \cap skipped ELSE {})
                        /\ rcnt' = rcnt + 1 /\ cnt' = cnt
-GhostTick    == /\ GhostOut(docArr) /\ lateSet' = {} /\ lastKind' = "tick"
-                /\ UNCHANGED <<maxNum, owner, legal, docArr, cnt, rcnt, abandoned>>
-GhostAbandon == /\ abandoned' = abandoned \cup skipped /\ GhostOut(docArr) /\ lateSet' = {} /\ lastKind' = "abandon"
-                /\ UNCHANGED <<maxNum, owner, legal, docArr, cnt, rcnt>>
+(* a document event declares: its unused_sequences (unused), the older sequences of the same document in
+   recent_sequences (superseded revisions - the feed may have deduplicated them), and the revision itself *)
+RECURSIVE GFold(_, _, _, _)
+GFold(g, sq, k, i) == IF i > Len(sq) THEN g ELSE GFold(GApply(g, Sub(sq[i], k, FALSE)), sq, k, i + 1)
+OlderRecent(d) == SelectSeq(d.recent, LAMBDA r : r < CurrentSeq(d))
+SeqSet(sq) == {sq[i] : i \in 1..Len(sq)}
+GhostDoc(d) ==
+  LET g == GApply(GFold(GFold(GCur, d.unused, "unused", 1), OlderRecent(d), "recent", 1), Sub(d.seq, "doc", FALSE)) IN
+  /\ legal' = g.legal /\ owner' = g.owner /\ docArr' = g.docArr
+  /\ superseded' = superseded \cup SeqSet(OlderRecent(d))
+  /\ lateSet' = (SeqSet(d.unused) \cup SeqSet(OlderRecent(d)) \cup {d.seq}) \cap skipped
+  /\ lateDoc' = {d.seq} \cap skipped /\ lastKind' = "doc"
+  /\ GhostOut(g.docArr)
+  /\ cnt' = [s \in Win |-> IF s = d.seq THEN cnt[s] + 1 ELSE cnt[s]] /\ rcnt' = rcnt
+  /\ UNCHANGED <<maxNum, abandoned>>
+GhostTick    == /\ GhostOut(docArr) /\ lateSet' = {} /\ lateDoc' = {} /\ lastKind' = "tick"
+                /\ UNCHANGED <<maxNum, owner, legal, docArr, superseded, cnt, rcnt, abandoned>>
+GhostAbandon == /\ abandoned' = abandoned \cup skipped /\ GhostOut(docArr) /\ lateSet' = {} /\ lateDoc' = {} /\ lastKind' = "abandon"
+                /\ UNCHANGED <<maxNum, owner, legal, docArr, superseded, cnt, rcnt>>
 
-Step(a, e) == hist' = Append(hist, [a |-> a, seq |-> e.seq, end |-> e.end, kind |-> e.kind, old |-> e.old])
+Step(a, e) == hist' = Append(hist, [a |-> a, seq |-> e.seq, end |-> e.end, kind |-> e.kind, old |-> e.old, unused |-> <<>>, recent |-> <<>>])
 NoEntry == [seq |-> 0, end |-> 0, kind |-> "", old |-> FALSE]
 
 Arrive(e)      == ImplArrive(e) /\ GhostArrive(e) /\ Step("Arrive", e)
 ArriveRange(e) == ImplArriveRange(e) /\ GhostArriveRange(e) /\ Step("Range", e)
+Doc(d)         == /\ ImplDoc(d) /\ GhostDoc(d)
+                  /\ hist' = Append(hist, [a |-> "Doc", seq |-> d.seq, end |-> 0, kind |-> "doc", old |-> d.old, unused |-> d.unused, recent |-> d.recent])
 Tick           == ImplTick /\ GhostTick /\ Step("Tick", NoEntry)
 Abandon        == ImplAbandon /\ GhostAbandon /\ Step("Abandon", NoEntry)
 
 InitImpl == /\ next = 1 /\ pending = EmptyBag /\ received = {} /\ skipped = {} /\ hcs = 0 /\ stable = 0 /\ nsk = 0
             /\ out = <<>> /\ star = <<>> /\ lls = 0
-InitGhost == /\ owner = [s \in Win |-> NoOwner] /\ legal = TRUE /\ docArr = {} /\ cnt = [s \in Win |-> 0] /\ rcnt = 0
+InitGhost == /\ owner = [s \in Win |-> NoOwner] /\ legal = TRUE /\ docArr = {} /\ superseded = {} /\ cnt = [s \in Win |-> 0] /\ rcnt = 0
              /\ delivered = [s \in Win |-> 0] /\ hiNL = 0 /\ ordOK = TRUE /\ phantom = FALSE /\ abandoned = {}
-             /\ lateSet = {} /\ lastKind = "init"
+             /\ lateSet = {} /\ lateDoc = {} /\ lastKind = "init"
 Init == InitImpl /\ InitGhost /\ maxNum \in MaxNums /\ hist = <<>>
 
 Next ==
   /\ Len(hist) < MaxSteps
   /\ \/ \E s \in Win, k \in Kinds, o \in Olds : cnt[s] < MaxDup /\ Arrive([seq |-> s, end |-> 0, kind |-> k, old |-> o])
      \/ \E r \in Ranges, o \in Olds : rcnt < MaxRangeArr /\ ArriveRange([seq |-> r[1], end |-> r[2], kind |-> "unused", old |-> o])
+     \/ \E d \in DocEvs, o \in Olds : cnt[d.seq] < MaxDup /\ Doc([seq |-> d.seq, unused |-> d.unused, recent |-> d.recent, old |-> o])
      \/ DOMAIN pending # {} /\ Tick
      \/ AllowAbandon /\ skipped # {} /\ Abandon
   /\ LegalOnly => legal'
@@ -212,13 +253,13 @@ Once == /\ \A s \in Win : delivered[s] <= 1                  \* forwarded to the
         /\ \A i \in 1..(Len(star) - 1) : star[i] < star[i + 1]   \* ... and visible once in the all-documents channel
         /\ ~phantom                                          \* nothing is forwarded that did not arrive
 Delivered ==                                                 \* ... and not lost: forwarded, or still waiting for its gap
-  legal => \A s \in docArr \ abandoned : (s \in Win /\ delivered[s] >= 1 /\ InSeq(star, s)) \/ s \in PendingSeqs
+  legal => \A s \in (docArr \ abandoned) \ superseded : (s \in Win /\ delivered[s] >= 1 /\ InSeq(star, s)) \/ s \in PendingSeqs
 InOrder == ordOK                                             \* non-late forwards are in increasing sequence order
 HwmSound == \A s \in 1..(next - 1) : Arr(s) \/ s \in skipped \/ s \in abandoned
 NoHiddenGap == Missing \subseteq skipped
 SkippedExact == NoHiddenGap /\ (legal => skipped \subseteq Missing)
 LateIsLate == /\ lateSet \cap skipped = {}
-              /\ lastKind = "doc" => \A s \in lateSet :
+              /\ \A s \in lateDoc :
                      /\ \E i \in 1..Len(out) : out[i].seq = s /\ out[i].late /\ out[i].kind = "doc"
                      /\ InSeq(star, s) /\ lls = s
 StableExposed == stable = IF skipped # {} THEN SetMin(skipped) - 1 ELSE next - 1
